@@ -630,7 +630,10 @@ struct UdpSink {
 
 impl UdpSink {
     fn new() -> UdpSink {
-        let sock = UdpSocket::bind("127.0.0.1:0").unwrap();
+        UdpSink::new_on("127.0.0.1:0").expect("loopback UDP socket")
+    }
+    fn new_on(bind: &str) -> Option<UdpSink> {
+        let sock = UdpSocket::bind(bind).ok()?;
         // a large receive buffer: a whole batch fits even if the draining thread is descheduled
         let _ = socket2::SockRef::from(&sock).set_recv_buffer_size(4 << 20);
         let addr = sock.local_addr().unwrap();
@@ -646,7 +649,7 @@ impl UdpSink {
                 }
             }
         });
-        UdpSink { addr, got, stop }
+        Some(UdpSink { addr, got, stop })
     }
     /// datagrams received so far, after the flow has been quiet for a moment
     fn drain(&self) -> Vec<Vec<u8>> {
@@ -671,13 +674,81 @@ impl Drop for UdpSink {
 
 const SERVICE: &str = "svc-é";
 
+/// A receiving socket and the reporter that sends to it. The reporter is kept across batches (as an
+/// application keeps it), so state it carries from one report() call to the next is exercised.
+struct JaegerEnd {
+    sink: UdpSink,
+    rep: fastrace_jaeger::JaegerReporter,
+}
+
+/// IPv4 loopback always, IPv6 loopback when the machine has it; batches alternate between them
+struct JaegerEnds {
+    v4: JaegerEnd,
+    v6: Option<JaegerEnd>,
+    n: usize,
+    n6: usize,
+}
+
+impl JaegerEnds {
+    fn new(st: &mut St) -> JaegerEnds {
+        let mk = |sink: UdpSink| {
+            let rep = fastrace_jaeger::JaegerReporter::new(sink.addr, SERVICE).unwrap();
+            JaegerEnd { sink, rep }
+        };
+        let v6 = UdpSink::new_on("[::1]:0").map(mk);
+        if v6.is_none() {
+            st.stat("ipv6_loopback_unavailable", 1);
+        }
+        JaegerEnds { v4: mk(UdpSink::new()), v6, n: 0, n6: 0 }
+    }
+    fn pick(&mut self) -> &mut JaegerEnd {
+        self.n += 1;
+        if self.n % 3 == 0 {
+            if let Some(e) = self.v6.as_mut() {
+                self.n6 += 1;
+                return e;
+            }
+        }
+        &mut self.v4
+    }
+}
+
+/// The agent is away while a first batch is sent (its datagram goes nowhere, and on a connected
+/// socket the ICMP answer would be remembered), then it is back: the next batch must arrive.
+fn jaeger_agent_restart(st: &mut St, r: &mut Rng) {
+    for round in 0..3 {
+        let tmp = match UdpSocket::bind("127.0.0.1:0") {
+            Ok(s) => s,
+            Err(_) => return,
+        };
+        let addr = tmp.local_addr().unwrap();
+        drop(tmp);
+        let mut rep = fastrace_jaeger::JaegerReporter::new(addr, SERVICE).unwrap();
+        for _ in 0..(1 + round) {
+            rep.report(vec![rand_record(r, false)]);
+            std::thread::sleep(Duration::from_millis(15));
+        }
+        let sink = match UdpSink::new_on(&addr.to_string()) {
+            Some(s) => s,
+            None => {
+                st.stat("agent_restart_port_taken", 1);
+                continue;
+            }
+        };
+        let mut end = JaegerEnd { sink, rep };
+        let batch: Vec<SpanRecord> = (0..(2 + r.below(6))).map(|_| rand_record(r, false)).collect();
+        jaeger_batch(st, &mut end, batch, true, &format!("first batch after the agent came back (round {})", round));
+        st.stat("agent_restart_rounds", 1);
+    }
+}
+
 /// Runs one batch; when spans are missing in a way that datagram loss on loopback could explain
 /// (what arrived is an in-order subsequence of what was expected), the batch is sent again: a
 /// reporter that skips spans does so every time, loss does not.
-fn jaeger_batch(st: &mut St, sink: &UdpSink, batch: Vec<SpanRecord>, split_rules: bool, label: &str) {
+fn jaeger_batch(st: &mut St, end: &mut JaegerEnd, batch: Vec<SpanRecord>, split_rules: bool, label: &str) {
     let mut missing_every_time: Option<Vec<usize>> = None;
     for attempt in 0..4 {
-        match jaeger_once(st, sink, batch.clone(), split_rules, label) {
+        match jaeger_once(st, end, batch.clone(), split_rules, label) {
             None => return,
             Some(missing) => {
                 st.stat("retries_after_incomplete_arrival", 1);
@@ -701,8 +772,8 @@ fn jaeger_batch(st: &mut St, sink: &UdpSink, batch: Vec<SpanRecord>, split_rules
 
 /// Returns None when the batch was decided (held or violation recorded), Some(missing positions
 /// among the expected spans) when an in-order subsequence arrived.
-fn jaeger_once(st: &mut St, sink: &UdpSink, batch: Vec<SpanRecord>, split_rules: bool, label: &str) -> Option<Vec<usize>> {
-    let mut rep = fastrace_jaeger::JaegerReporter::new(sink.addr, SERVICE).unwrap();
+fn jaeger_once(st: &mut St, end: &mut JaegerEnd, batch: Vec<SpanRecord>, split_rules: bool, label: &str) -> Option<Vec<usize>> {
+    let JaegerEnd { sink, rep } = end;
     let expected: Vec<JSpan> = batch.iter().map(j_expected).collect();
     // spans whose own encoding does not fit a datagram are the only permitted omissions
     let fits: Vec<bool> = expected.iter().map(|s| e_batch(SERVICE, std::slice::from_ref(s)).len() < 8000).collect();
@@ -801,7 +872,9 @@ fn sized_record(r: &mut Rng, size: usize) -> SpanRecord {
     if size > base {
         // name length varint grows with the length: iterate to the exact size
         let mut n = size - base;
-        loop {
+        // an exact size may not exist (the length prefix grows by a byte at 128 / 16384): a few
+        // rounds, then the nearest size is good enough
+        for _ in 0..8 {
             rec.name = "n".repeat(n).into();
             let got = e_batch(SERVICE, &[j_expected(&rec)]).len();
             if got == size || n == 0 {
@@ -818,8 +891,9 @@ fn sized_record(r: &mut Rng, size: usize) -> SpanRecord {
 }
 
 fn run_jaeger(st: &mut St, r: &mut Rng, n: usize, deadline: Instant) {
-    let sink = UdpSink::new();
-    jaeger_batch(st, &sink, vec![], false, "empty batch");
+    jaeger_agent_restart(st, r);
+    let mut ends = JaegerEnds::new(st);
+    jaeger_batch(st, ends.pick(), vec![], false, "empty batch");
     for k in 0..n {
         if Instant::now() > deadline {
             break;
@@ -835,17 +909,19 @@ fn run_jaeger(st: &mut St, r: &mut Rng, n: usize, deadline: Instant) {
         if !big && swell(r, &mut batch, 300, 250) {
             st.stat("records_with_over_128_events_or_properties", 1);
         }
-        jaeger_batch(st, &sink, batch, false, &format!("random batch #{}", k));
+        jaeger_batch(st, ends.pick(), batch, false, &format!("random batch #{}", k));
         st.distinct += 1;
     }
+    st.stat("batches_to_an_ipv6_agent", ends.n6 as u64);
 }
 
 fn run_split(st: &mut St, r: &mut Rng, n: usize, deadline: Instant) {
-    let sink = UdpSink::new();
+    jaeger_agent_restart(st, r);
+    let mut ends = JaegerEnds::new(st);
     // single spans right at the limit
     for size in [7990usize, 7997, 7998, 7999, 8000, 8001, 8002, 8100, 20_000, 70_000] {
         let rec = sized_record(r, size);
-        jaeger_batch(st, &sink, vec![rec], true, &format!("single span of {} bytes", size));
+        jaeger_batch(st, ends.pick(), vec![rec], true, &format!("single span of {} bytes", size));
         st.distinct += 1;
     }
     for k in 0..n {
@@ -922,9 +998,10 @@ fn run_split(st: &mut St, r: &mut Rng, n: usize, deadline: Instant) {
                 batch = (0..cnt).map(|_| rand_record(r, false)).collect();
             }
         }
-        jaeger_batch(st, &sink, batch, true, &format!("split batch #{} (mode {})", k, mode));
+        jaeger_batch(st, ends.pick(), batch, true, &format!("split batch #{} (mode {})", k, mode));
         st.distinct += 1;
     }
+    st.stat("batches_to_an_ipv6_agent", ends.n6 as u64);
 }
 
 // ---- datadog ----
@@ -936,7 +1013,10 @@ struct HttpSink {
 
 impl HttpSink {
     fn new() -> HttpSink {
-        let l = TcpListener::bind("127.0.0.1:0").unwrap();
+        HttpSink::new_on("127.0.0.1:0").expect("loopback listener")
+    }
+    fn new_on(bind: &str) -> Option<HttpSink> {
+        let l = TcpListener::bind(bind).ok()?;
         let addr = l.local_addr().unwrap();
         let got = Arc::new(Mutex::new(Vec::new()));
         let g = got.clone();
@@ -990,7 +1070,7 @@ impl HttpSink {
                 });
             }
         });
-        HttpSink { addr, got }
+        Some(HttpSink { addr, got })
     }
 }
 
@@ -1009,15 +1089,33 @@ fn boundary_size(k: usize) -> Option<usize> {
 const BOUNDARY_SIZES: [usize; 16] = [14, 15, 16, 17, 31, 32, 33, 127, 128, 129, 255, 256, 257, 65535, 65536, 65537];
 
 fn run_datadog(st: &mut St, r: &mut Rng, n: usize, deadline: Instant) {
-    let sink = HttpSink::new();
-    let mut rep = fastrace_datadog::DatadogReporter::new(sink.addr, "svc", "res", "web");
-    rep.report(vec![]);
-    if !sink.got.lock().unwrap().is_empty() {
+    let sink4 = HttpSink::new();
+    let mut rep4 = fastrace_datadog::DatadogReporter::new(sink4.addr, "svc", "res", "web");
+    // an agent on the IPv6 loopback address, when the machine has one
+    let mut end6 = HttpSink::new_on("[::1]:0").map(|s| {
+        let rep = fastrace_datadog::DatadogReporter::new(s.addr, "svc", "res", "web");
+        (s, rep)
+    });
+    if end6.is_none() {
+        st.stat("ipv6_loopback_unavailable", 1);
+    }
+    rep4.report(vec![]);
+    if !sink4.got.lock().unwrap().is_empty() {
         st.viol("request-for-empty-batch", "a request was sent for an empty batch".into());
     }
     for k in 0..n {
         if Instant::now() > deadline {
             break;
+        }
+        let use6 = k % 3 == 2 && end6.is_some();
+        let (sink, rep): (&HttpSink, &mut fastrace_datadog::DatadogReporter) = if use6 {
+            let e = end6.as_mut().unwrap();
+            (&e.0, &mut e.1)
+        } else {
+            (&sink4, &mut rep4)
+        };
+        if use6 {
+            st.stat("batches_to_an_ipv6_agent", 1);
         }
         // the first batches of a run have the sizes at which container headers change their
         // encoding (msgpack fixarray / array16 / array32, thrift short / long list headers)
